@@ -568,6 +568,7 @@ class SymTensor:
     requires_grad = False
     grad = None
     grad_fn = None
+    hist = None  # autograd-history model used by harness.scfbw: [(other SymTensor, d self / d other)]
     is_cuda = False
     is_sparse = False
 
@@ -677,10 +678,28 @@ class SymTensor:
     def clone(self, *a, **k):
         return SymTensor(self.a.copy(), self.isbool)
 
+    is_leaf_model = True  # False: stands for a non-leaf tensor (output of a differentiable computation)
+
+    def __deepcopy__(self, memo):
+        # torch.Tensor.__deepcopy__: only graph leaves can be deep-copied, and the copy is a new leaf that is not connected
+        # to the original, i.e. derivatives w.r.t. the original do not flow into it (tangents are dropped)
+        if not self.is_leaf_model:
+            raise RuntimeError("Only Tensors created explicitly by the user (graph leaves) support the deepcopy protocol at the moment")
+        a = np.empty(self.a.shape, dtype=object)
+        fa, fs = a.reshape(-1), self.a.reshape(-1)
+        for i in range(fs.size):
+            fa[i] = fs[i].v if isinstance(fs[i], Dual) else fs[i]
+        r = SymTensor(a, self.isbool)
+        r.requires_grad = self.requires_grad
+        return r
+
     def detach(self):
-        return self
+        # shares storage like torch's detach(); the copy carries no autograd-history model and does not require grad
+        return SymTensor(self.a, self.isbool)
 
     def detach_(self):
+        self.hist = None
+        self.requires_grad = False
         return self
 
     def contiguous(self, *a, **k):
@@ -689,7 +708,8 @@ class SymTensor:
     def cpu(self):
         return self
 
-    def requires_grad_(self, *a, **k):
+    def requires_grad_(self, requires_grad=True):
+        self.requires_grad = bool(requires_grad)
         return self
 
     def retain_grad(self):
